@@ -467,6 +467,43 @@ def handleOffsets (j : Json) : Option Json := do
   some (Json.mkObj [("chars", Json.arr cs.toArray), ("linecol", Json.arr lc.toArray),
     ("starts", Json.arr (starts.map (fun (n : Nat) => Json.num n)).toArray)])
 
+def handleWindows (j : Json) : Option Json := do
+  let n ← (field? j "n") >>= getNat?
+  let k ← (field? j "k") >>= getNat?
+  let ws := C12.windowsPy (List.range n) k
+  some (Json.mkObj [("windows", Json.arr (ws.map (fun w => Json.arr (w.map (fun (x : Nat) => Json.num x)).toArray)).toArray)])
+
+def handleSafeCalls (j : Json) : Option Json := do
+  let strs (k : String) : Option (List String) := do (← (field? j k) >>= getArr?).toList.mapM getStr?
+  let base ← strs "base"
+  let stores ← strs "stores"
+  let other ← strs "other"
+  let ds ← (field? j "defs") >>= getArr?
+  let defs ← ds.toList.mapM (fun d => do
+    let a ← getArr? d
+    if a.size != 3 then none
+    let calls ← (← getArr? a[2]!).toList.mapM getStr?
+    some (C16.SafeCalls.Def.mk (← getStr? a[0]!) (a[1]! == Json.bool true) calls))
+  let names := C16.SafeCalls.safeNames base defs stores other
+  let k := defs.length + 1
+  some (Json.mkObj [("names", Json.arr (names.map Json.str).toArray),
+                    ("reaches_effect", Json.arr ((names.filter (fun n => C16.SafeCalls.reachesEffect defs k n)).map Json.str).toArray)])
+
+def handleCharnos (j : Json) : Option Json := do
+  let src ← (field? j "src") >>= getStr?
+  let chars := src.toList
+  let items ← (field? j "nodes") >>= getArr?
+  let out ← items.toList.mapM (fun it => do
+    let a ← getArr? it
+    if a.size != 6 then none
+    let first : Charnos.Pos := ⟨← getNat? a[0]!, ← getNat? a[1]!⟩
+    let endp : Option Charnos.Pos := if a[2]!.isNull then none else some ⟨(getNat? a[2]!).getD 0, (getNat? a[3]!).getD 0⟩
+    let isDef := a[4]! == Json.bool true
+    let keep := a[5]! == Json.bool true
+    let r := Charnos.getCharnos chars first endp isDef keep
+    some (Json.arr #[Json.num r.1, Json.num r.2]))
+  some (Json.mkObj [("ranges", Json.arr out.toArray)])
+
 def handleFormatFiles (j : Json) : Option Json := do
   let fs ← (field? j "files") >>= getArr?
   let fs ← fs.toList.mapM (fun f => do
@@ -551,21 +588,34 @@ def handleMinimize (j : Json) : Option Json := do
   some (Json.mkObj [("text", Json.str (String.ofList (Minimize.minimize sc))),
                     ("new", Json.str (String.ofList (Minimize.newText sc)))])
 
-def handleImports (j : Json) : Option Json := do
-  let items ← (field? j "imports") >>= getArr?
-  let imps ← items.toList.mapM (fun it => do
+def parseImps (items : Array Json) : Option (List Imports.Imp) :=
+  items.toList.mapM (fun it => do
     let a ← getArr? it
     let opt (x : Json) : Option (Option String) := if x.isNull then some none else (getStr? x).map some
     match (← getStr? a[0]!) with
     | "plain" => some (Imports.Imp.plain (← getStr? a[1]!) (← opt a[2]!))
     | "from" => some (Imports.Imp.from_ (← getStr? a[1]!) (← getStr? a[2]!) (← opt a[3]!))
     | _ => none)
+
+def handleImports (j : Json) : Option Json := do
+  let items ← (field? j "imports") >>= getArr?
+  let imps ← parseImps items
   let names := (imps.map Imports.Imp.bound).eraseDups
   some (Json.mkObj [("env", Json.arr (names.map (fun n =>
     match Imports.env imps n with
     | some (m, some a) => Json.arr #[Json.str n, Json.str m, Json.str a]
     | some (m, none) => Json.arr #[Json.str n, Json.str m, Json.null]
     | none => Json.arr #[Json.str n, Json.null, Json.null])).toArray)])
+
+/-- validator of an import rewrite: are the used names bound to the same objects before and after? -/
+def handleImportCheck (j : Json) : Option Json := do
+  let before ← (field? j "before") >>= getArr? >>= parseImps
+  let after ← (field? j "after") >>= getArr? >>= parseImps
+  let used ← (field? j "used") >>= getArr?
+  let used ← used.toList.mapM getStr?
+  let differ := used.filter (fun x => !decide (Imports.env before x = Imports.env after x))
+  some (Json.mkObj [("agree", Json.bool (Imports.agreeOn used before after)),
+                    ("differ", Json.arr (differ.map Json.str).toArray)])
 
 partial def parseE (j : Json) : Option C16.E := do
   let a ← getArr? j
@@ -625,8 +675,12 @@ def dispatch (j : Json) : Json :=
   | some "preserve" => (handlePreserve j).getD bad
   | some "layout" => (handleLayout j).getD bad
   | some "blanklines" => (handleBlankLines j).getD bad
+  | some "charnos" => (handleCharnos j).getD bad
+  | some "safecalls" => (handleSafeCalls j).getD bad
+  | some "windows" => (handleWindows j).getD bad
   | some "minimize" => (handleMinimize j).getD bad
   | some "imports" => (handleImports j).getD bad
+  | some "importcheck" => (handleImportCheck j).getD bad
   | some "sideeffect" => (handleSideEffect j).getD bad
   | _ => bad
 
